@@ -170,6 +170,31 @@ pub fn mixed_items(cfg: &DbCfg, nkeys: u16, big: u32, max_items: usize, tree_dep
 		.boxed()
 }
 
+/// Moves the columns of a scenario behind `pad` plain hash columns (two-digit column ids, whose
+/// decimal and hexadecimal spellings differ; table ids beyond one hex digit); every fifth plain
+/// write goes to one of the padding columns instead.
+pub fn widen(sc: &mut Scenario, pad: u8) {
+	if pad == 0 {
+		return
+	}
+	let mut cols: Vec<ColCfg> = (0..pad).map(|_| ColCfg::hash()).collect();
+	cols.extend(sc.cfg.cols.drain(..));
+	sc.cfg.cols = cols;
+	for op in sc.ops.iter_mut() {
+		if let Op::Commit(items) = op {
+			for (i, it) in items.iter_mut().enumerate() {
+				if i % 5 == 4 {
+					if let Change::Set(..) | Change::Del(..) = it.ch {
+						it.col %= pad;
+						continue
+					}
+				}
+				it.col += pad;
+			}
+		}
+	}
+}
+
 pub fn mixed_cfg(max_cols: usize, multi: bool) -> impl Strategy<Value = DbCfg> {
 	(proptest::collection::vec(any_col(multi), 1..=max_cols), 0u8..2).prop_map(|(cols, bits)| DbCfg::new(cols).flags(bits))
 }
